@@ -179,7 +179,13 @@ fn gen_nodes(rng: &mut Rng, depth: u32) -> Vec<Node> {
 
 pub fn generate(rng: &mut Rng, _tier: Tier, hard: bool) -> Scn {
     let npieces = rng.range(1, 4);
-    let msg_pieces = (0..npieces).map(|_| gen_text(rng, 8)).collect();
+    let mut msg_pieces: Vec<String> = (0..npieces).map(|_| gen_text(rng, 8)).collect();
+    if rng.chance(1, 60) {
+        // beyond small cases: one piece of several thousand bytes (a stack trace, a dump)
+        let k = rng.below(msg_pieces.len() as u64) as usize;
+        let n = *rng.pick(&[2040u64, 2048, 2049, 2080, 4096, 4100, 9000]) + rng.below(3);
+        msg_pieces[k] = if rng.chance(2, 3) { (0..n).map(|i| (b'a' + ((i * 7 + 3) % 26) as u8) as char).collect() } else { gen_text(rng, n / 2) };
+    }
     let accept = (0..rng.range(1, 6)).map(|_| *rng.pick(&[1u16, 1, 1, 2, 3, 4, 5, 7, 64, 1000])).collect();
     let interrupts = (0..rng.below(4)).map(|_| rng.below(40) as u16).collect();
     Scn {
